@@ -6,7 +6,7 @@
  * tsstress_hidden.c, an object compiled WITHOUT instrumentation: mutual exclusion still holds, TSan just does not see it.
  * Reports whose frames lie in tsrm.c / util/list.c are therefore ignored by the harness (those accesses are what the systematic
  * schedule exploration covers).
- *   tsstress <ini> <threads> <calls>
+ *   tsstress <ini> <threads> <calls> [<padlen>]      padlen > 0: every call carries a third argument of padlen bytes (one letter per thread)
  */
 #define _GNU_SOURCE
 #include <errno.h>
@@ -16,15 +16,18 @@
 #include <string.h>
 #include <unistd.h>
 extern void snoopy_configuration_preinit_enableAltConfigFileParsing(char *path);
-static int ncalls;
+static int ncalls, padlen;
 static void *worker(void *arg)
 {
     long t = (long) arg;
     for (int k = 0; k < ncalls; k++) {
         char path[64], a0[32], a1[32]; snprintf(path, sizeof path, "/nonexistent/T%ldC%d", t, k);
         snprintf(a0, sizeof a0, "prog-T%ld", t); snprintf(a1, sizeof a1, "call-%d", k);
-        char *argv[] = { a0, a1, NULL }; char *envp[] = { "E=1", NULL };
+        char *pad = NULL;
+        if (padlen > 0) { pad = malloc((size_t) padlen + 1); memset(pad, 'a' + (int) (t % 26), (size_t) padlen); pad[padlen] = 0; }
+        char *argv[] = { a0, a1, pad, NULL }; char *envp[] = { "E=1", NULL };
         if (k % 2) execve(path, argv, envp); else execv(path, argv);
+        free(pad);
     }
     return NULL;
 }
@@ -32,7 +35,7 @@ int main(int argc, char **argv)
 {
     if (argc < 4) return 2;
     snoopy_configuration_preinit_enableAltConfigFileParsing(argv[1]);
-    int n = atoi(argv[2]); ncalls = atoi(argv[3]);
+    int n = atoi(argv[2]); ncalls = atoi(argv[3]); padlen = argc > 4 ? atoi(argv[4]) : 0;
     pthread_t th[64];
     for (long i = 0; i < n && i < 64; i++) pthread_create(&th[i], NULL, worker, (void *) (i + 1));
     for (int i = 0; i < n && i < 64; i++) pthread_join(th[i], NULL);
